@@ -465,6 +465,7 @@ def run(ctx):
                 ctx.fail("C05.R5", key, ch.file, ap.lineno, ch.qual,
                          "a child vanishing mid-walk is no longer skipped "
                          "(NoSuchProcess/ZombieProcess would escape children())")
+    hoisted = False
     for c in cctors:
         trys = enclosing_trys(ch.node, c)
         good = False
@@ -478,12 +479,24 @@ def run(ctx):
                     inside = any(isinstance(s, ast.Call) and isinstance(s.func, ast.Attribute)
                                  and s.func.attr == "create_time"
                                  for b in t.body for s in ast.walk(b))
-                    good = inside
+                    # "skipped" means the scan of the other candidates goes on: the try
+                    # sits INSIDE the loop over the candidates (a try around that loop
+                    # would drop every sibling listed after the one that vanished)
+                    loops_ = [l_ for l_ in ast.walk(ch.node) if isinstance(l_, ast.For)
+                              and any(x is c for x in ast.walk(l_))]
+                    innermost = loops_[-1] if loops_ else None
+                    per_child = innermost is not None and any(x is t for x in ast.walk(innermost))
+                    good = inside and per_child
+                    if inside and not per_child:
+                        hoisted = True
         key = f"children:child-handler:{'rec' if _in_while(ch.node, c) else 'flat'}"
         if good:
             ctx.ok("C05.R5", key, sample=f"{norm_stmt(c)} under except (NoSuchProcess, ZombieProcess)")
         else:
             ctx.fail("C05.R5", key, ch.file, c.lineno, ch.qual,
+                     (f"`{norm_stmt(c)}`: the handler of NoSuchProcess/ZombieProcess encloses the "
+                      f"whole loop over the candidates: one child vanishing mid-walk drops every "
+                      f"sibling listed after it (and their sub-trees)") if hoisted else
                      f"`{norm_stmt(c)}`: a child vanishing mid-walk is no longer "
                      f"skipped (NoSuchProcess/ZombieProcess would escape children())")
     # ------------------------------------------------------------------- R6
